@@ -43,6 +43,10 @@ CHECKS = {
   technique="Coq proof about a hand-written model of MmrSuccessorProof (construction and verification) over an abstract hash + differential correspondence on all small (old, appended) pairs and inconsistent accumulators",
   text="Theorems C12_* (props/C12.v) about the model of new_from_batch_append / verify; totality on structurally inconsistent accumulators (repaired code rejects them). Tied to the code by all (old, appended) pairs with total <= 64, bit-pattern leaf counts, every single-digest alteration, and accumulators whose peak list length disagrees with the leaf count (10k cases x 2 profiles).",
   note="Model hand-written, index functions partly from the regenerated MmrIndexGen.v. See evidence for the list of theorems proved so far."),
+ "C14": dict(
+  technique="Coq proof (C03/C13 theorems specialised to derived struct / enum shapes through a shape-to-grammar lowering, plus layout theorems) + differential correspondence of the workspace macro against the Coq model and against the published macro, on 86 generated type definitions",
+  text="38 theorems C14_* (props/C14.v) for every shape (unit / named / tuple structs, enums with unit and tuple variants, ignored named fields, generics as instantiation): round trip, uniqueness, static length, total and strict decoding, layout (discriminant first, reverse field order, dynamic fields length-prefixed, ignored named fields omitted and defaulted). Tied to the code by 86 definitions / 123 instances each derived twice (workspace macro and registry 0.7.1): model vs workspace, workspace vs registry bit for bit, 52k near-valid sequences x 2 profiles.",
+  note="The proc-macro's token generation is not translated: the tie is the differential run over sampled shapes; compile-time rejections are out of scope; Default::default() is abstract in the theorems; recursive derived types are outside the (finite-tree) grammar. Known findings (printed as KNOWN-FINDING): ignore attribute on tuple-struct fields has no effect; recursive derived types make static_length diverge."),
 }
 
 ORDER = ["C%02d" % i for i in range(1, 21)]
